@@ -14,7 +14,7 @@ from . import core
 from .core import EngineError
 
 # representative code points: all ASCII + one per non-ASCII behaviour class
-R = [chr(i) for i in range(128)] + list("\xe9\xc9\u0663\u20ac\xa0\u2028\x85\U0001d400\ufeff")
+R = [chr(i) for i in range(128)] + list("\xe9\xc9\u0663\u20ac\xa0\u2028\x85\U0001d400\ufeff") + [chr(0xD800)]   # last: a lone surrogate (a str may hold one; it cannot be encoded)
 RI = {c: i for i, c in enumerate(R)}
 KC = len(R)
 IDENT = tuple(R)
